@@ -24,6 +24,10 @@ def split_inputs(inputs: dict):
     return s, p, m, inputs.get("t", 0.0), inputs.get("dt", 0.0)
 
 
+class HarnessCallError(Exception):
+    """The harness could not even set up the real call (never an error of the artefact)."""
+
+
 class PyView:
     def __init__(self, code: str, backend="numpy"):
         self.backend = backend
@@ -95,11 +99,21 @@ class PyView:
             return self.concrete_jax(fn, inputs)
         import numpy as np
 
-        ns = self.namespace()
-        A = self._arrays(inputs)
-        args = [A[a] for a in self.arg_names(fn)]
+        try:
+            ns = self.namespace()
+            A = self._arrays(inputs)
+            names = self.arg_names(fn)
+            f = ns[fn]
+            if fn in ("init_state_values", "init_parameter_values"):
+                args = []
+            else:
+                args = [A[a] for a in names]
+        except Exception as e:
+            if isinstance(e, (SyntaxError, NameError, ImportError)):
+                raise   # the emitted module itself does not import
+            raise HarnessCallError(f"{type(e).__name__}: {e}")
         with np.errstate(all="ignore"):
-            res = ns[fn](*args)
+            res = f(*args)
         return [float(x) for x in np.asarray(res).ravel()]
 
     def concrete_jax(self, fn, inputs, disable_jit=False):
@@ -188,7 +202,7 @@ class CView:
     def concrete(self, fn, inputs, n_out=None):
         s, p, m, t, dt = split_inputs(inputs)
         lib = self.lib()
-        smap, pmap = self.index_map("state"), self.index_map("parameter")
+        smap, pmap, mmap = self.index_map("state"), self.index_map("parameter"), self.index_map("missing")
 
         def arr(mapping, vals, extra=0):
             n = (max(mapping.values()) + 1) if mapping else 0
@@ -200,8 +214,8 @@ class CView:
         if n_out is None:
             n_out = max(len(smap), len(self.index_map("monitor")), len(pmap)) + 4
         values = (ctypes.c_double * n_out)(*([float("nan")] * n_out))
-        A = {"states": arr(smap, s), "parameters": arr(pmap, p), "t": ctypes.c_double(float(t)),
-             "dt": ctypes.c_double(float(dt)), "values": values}
+        A = {"states": arr(smap, s), "parameters": arr(pmap, p), "missing_variables": arr(mmap, m),
+             "t": ctypes.c_double(float(t)), "dt": ctypes.c_double(float(dt)), "values": values}
         f = getattr(lib, fn)
         f.restype = None
         names = self.arg_names(fn)
